@@ -42,9 +42,10 @@ def check_transmissions(case, out):
     sim = case['sim']
     fails = []
     disc = sim in simrun.DISCRETE
-    table = (case.get('rule') or {}).get('kind') == 'table'
-    nodes, adj = oracles.adjacency(case['gc'])
     tmin = case['tmin']
+    # scripted ties, or a float clock at |t| >= 1e8 that can put a recovery and a transmission on one instant: no tie convention is asserted
+    table = (case.get('rule') or {}).get('kind') == 'table' or abs(tmin) >= 1e8
+    nodes, adj = oracles.adjacency(case['gc'])
     try:
         trans = list(out.transmissions())
     except Exception as e:
